@@ -63,10 +63,18 @@ LEGACY_ITEMS = {"IntoIterator": "{A} struct S(Vec<u8>);", "TryInto": "{A} enum S
                 "TryUnwrap": "{A} enum S {{ A(i32), B(u8) }}"}
 
 
-def render(fam, atoms, derive):
+SEP = {"adjacent": None, "doc": "/// a doc comment\n", "allow": "#[allow(dead_code)]"}
+
+
+def render(fam, atoms, derive, sep="adjacent"):
     F = FAM[fam]
     name = F["name"].format(n=ATTRNAME.get(derive, derive.lower()))
-    attrs = " ".join(f"#[{name}{F['atoms'][a]}]" for a in atoms)
+    own = [f"#[{name}{F['atoms'][a]}]" for a in atoms]
+    if SEP[sep] is None:
+        attrs = " ".join(own)
+    else:
+        # Interleave of Attrs.tla: a foreign attribute before, between and after the derive's own
+        attrs = " ".join([SEP[sep]] + [x for o in own for x in (o, SEP[sep])])
     item = F["item"] or LEGACY_ITEMS[derive]
     return item.format(A=attrs, n=name)
 
@@ -92,8 +100,8 @@ def run(chk, tier, seed, replay):
     for c in r.cases:
         fam = c["f"]
         for d in FAM[fam]["derives"]:
-            item = render(fam, c["as"], d)
-            key = f"{fam}|{d}|{','.join(c['as'])}"
+            item = render(fam, c["as"], d, c["sep"])
+            key = f"{fam}|{d}|{','.join(c['as'])}" + ("" if c["sep"] == "adjacent" else "|" + c["sep"])
             reqs.append({"key": key, "derive": d, "item": item, "tokens": False})
             meta[key] = (fam, d, c["as"], tuple(sorted((x[0], x[1]) for x in c["res"])), item)
     if replay:
